@@ -328,6 +328,9 @@ fn send_replication(
     server_tick: Res<ServerTick>,
     time: Res<Time>,
 ) -> Result<()> {
+    #[cfg(replicon_verif)]
+    verif::REPLICATION_RUNS.fetch_add(1, core::sync::atomic::Ordering::Relaxed);
+
     related_entities.rebuild_graphs();
 
     for (_, mut updates, mut mutations, ..) in &mut clients {
@@ -877,6 +880,14 @@ pub mod verif {
     use bevy::prelude::*;
 
     use super::{DespawnBuffer, related_entities::RelatedEntities, removal_buffer::RemovalBuffer};
+
+    /// Number of times `send_replication` ran in this process.
+    pub static REPLICATION_RUNS: core::sync::atomic::AtomicU64 = core::sync::atomic::AtomicU64::new(0);
+
+    /// Returns the number of `send_replication` runs so far.
+    pub fn replication_runs() -> u64 {
+        REPLICATION_RUNS.load(core::sync::atomic::Ordering::Relaxed)
+    }
 
     /// Returns the content of the despawn buffer.
     pub fn despawn_buffer(world: &World) -> Vec<Entity> {
